@@ -102,7 +102,7 @@ theorem deser_ser_raw (cd : Codecs) (cdata : Bytes) (f c : Nat) (hf : f < 8) (hc
 /-- The empty value: serialises to the empty string, which deserialises to the empty value. -/
 theorem empty_roundtrip (cd : Codecs) (f lvl c : Nat) (u : Bool) :
     serializeData cd [] f lvl c = some [] ∧ deserializeData cd [] u = .ok [] Gen.compUncompressed := by
-  simp [serializeData, deserializeData]
+  simp [serializeData, deserializeData, Gen.serializeEmptyShortCircuit]
 
 /-- **Corruption is detected** (the provable core: a 32-bit checksum cannot detect *every* alteration —
     pigeonhole — so the statement is for alterations confined to one byte, which covers every single-bit
